@@ -1,7 +1,7 @@
 (* C07 -- deciding obligations. Statements only, closed by the lemmas proved in Xform/*Proofs.v. *)
 From Coq Require Import List Arith Bool.
 From VF Require Import Base.RingOps Base.Mat Base.Tensor Base.TensorProofs.
-From VF Require Import Xform.Routing Xform.RoutingProofs Xform.RoutingSem Xform.RoutingSemProofs Xform.Gateset Xform.GatesetProofs Base.K8.
+From VF Require Import Xform.Routing Xform.RoutingProofs Xform.RoutingSem Xform.RoutingSemProofs Xform.Gateset Xform.GatesetProofs Xform.DeviceSpec Xform.DeviceSpecProofs Base.K8.
 Import ListNotations.
 
 (* ---- MappingManager: for every swap sequence the two arrays stay inverse bijections ---- *)
@@ -241,3 +241,64 @@ Example C07_device_example :
   device_accepts d (mkDop (OGate g []) [0; 2] true) = false /\
   device_accepts d (mkDop (OGate g []) [0; 3] true) = false.
 Proof. repeat split. Qed.
+
+(* ---- devices built from a device specification (GridDevice.from_proto) ---- *)
+(* a pair is a coupling of the specified device exactly when SOME symmetric target set lists it, in either order: neither the name of
+   the set nor the way the couplings are distributed over several sets matters *)
+Theorem C07_spec_pair_allowed_iff : forall sp a b, pair_mem (spec_pairs sp) a b = true <->
+  exists ts, In ts (sp_targets sp) /\ ts_ordering ts = OrdSymmetric /\ (In [a; b] (ts_targets ts) \/ In [b; a] (ts_targets ts)).
+Proof. exact spec_pair_allowed_iff. Qed.
+Print Assumptions C07_spec_pair_allowed_iff.
+
+Theorem C07_device_of_spec_rename : forall f sp, device_of_spec (rename_sets f sp) = device_of_spec sp.
+Proof. exact device_of_spec_rename. Qed.
+Print Assumptions C07_device_of_spec_rename.
+
+Theorem C07_spec_pairs_split : forall qs l1 l2 n n1 n2 t1 t2 g,
+  spec_pairs (mkSpec qs (l1 ++ mkTS n OrdSymmetric (t1 ++ t2) :: l2) g) =
+  spec_pairs (mkSpec qs (l1 ++ mkTS n1 OrdSymmetric t1 :: mkTS n2 OrdSymmetric t2 :: l2) g).
+Proof. exact spec_pairs_split. Qed.
+Print Assumptions C07_spec_pairs_split.
+
+Theorem C07_ts_pairs_not_symmetric : forall ts, ts_ordering ts <> OrdSymmetric -> ts_pairs ts = [].
+Proof. exact ts_pairs_not_symmetric. Qed.
+Print Assumptions C07_ts_pairs_not_symmetric.
+
+Theorem C07_spec_device_accepts_iff : forall sp d o a b,
+  device_of_spec sp = Some d -> dop_qs o = [a; b] -> a <> b -> op_variadic (dop_op o) = false ->
+  (device_accepts d o = true <->
+   op_in_gateset (sp_gateset sp) (dop_op o) = true /\ In a (sp_qubits sp) /\ In b (sp_qubits sp) /\
+   exists ts, In ts (sp_targets sp) /\ ts_ordering ts = OrdSymmetric /\ (In [a; b] (ts_targets ts) \/ In [b; a] (ts_targets ts))).
+Proof. exact spec_device_accepts_iff. Qed.
+Print Assumptions C07_spec_device_accepts_iff.
+
+Theorem C07_spec_device_no_pair_needed : forall sp d o,
+  device_of_spec sp = Some d -> (length (dop_qs o) <> 2 \/ op_variadic (dop_op o) = true) ->
+  (device_accepts d o = true <->
+   op_in_gateset (sp_gateset sp) (dop_op o) = true /\ forall q, In q (dop_qs o) -> In q (sp_qubits sp)).
+Proof. exact spec_device_no_pair_needed. Qed.
+Print Assumptions C07_spec_device_no_pair_needed.
+
+Theorem C07_same_pairs_spec : forall a b, same_pairs a b = true <-> forall x y, pair_mem a x y = pair_mem b x y.
+Proof. exact same_pairs_spec. Qed.
+Print Assumptions C07_same_pairs_spec.
+
+(* qubits 0..3 in a square 0-1, 2-3 (horizontal), 0-2, 1-3 (vertical, listed larger qubit first).  The same couplings written as one
+   conventionally named set (name 0), one set under another name, two sets, with a measurement group of two qubits (no coupling) and a
+   three-qubit symmetric target (no coupling): always the same device; a two-qubit gate on (2, 0) is accepted, on the diagonal (0, 3) and on
+   the measurement group (1, 2) refused.  The hypotheses of the two acceptance theorems are satisfiable (device_of_spec = Some). *)
+Example C07_spec_layouts :
+  let gs := mkGS [mkF (FBase (BType 1)) [] []] true [] in
+  let g := GD [1; 0] 4 [] false false 2 true false None in
+  let meas := mkTS 1 OrdSubsetPermutation [[1; 2]; [0]; [3]] in
+  let one := mkSpec [0; 1; 2; 3] [mkTS 0 OrdSymmetric [[0; 1]; [2; 3]; [2; 0]; [3; 1]]; meas] gs in
+  let renamed := mkSpec [0; 1; 2; 3] [mkTS 7 OrdSymmetric [[0; 1]; [2; 3]; [2; 0]; [3; 1]]; meas] gs in
+  let split := mkSpec [0; 1; 2; 3] [mkTS 0 OrdSymmetric [[0; 1]; [2; 3]]; meas; mkTS 8 OrdSymmetric [[2; 0]; [3; 1]; [0; 1; 2]]] gs in
+  same_pairs (spec_pairs one) (spec_pairs renamed) = true /\ same_pairs (spec_pairs one) (spec_pairs split) = true /\
+  (exists d, device_of_spec split = Some d /\
+     device_accepts d (mkDop (OGate g []) [2; 0] true) = true /\ device_accepts d (mkDop (OGate g []) [0; 2] true) = true /\
+     device_accepts d (mkDop (OGate g []) [0; 3] true) = false /\ device_accepts d (mkDop (OGate g []) [1; 2] true) = false) /\
+  ts_ordering meas <> OrdSymmetric /\
+  device_of_spec (mkSpec [0; 1] [mkTS 0 OrdSymmetric [[0; 0]]] gs) = None /\
+  device_of_spec (mkSpec [0; 1] [mkTS 0 OrdSymmetric [[0; 2]]] gs) = None.
+Proof. repeat split; try reflexivity. - eexists. repeat split. - discriminate. Qed.
